@@ -21,14 +21,25 @@ def units(tier, seed):
         if tier == "quick" and (pd == "f64" or comm == "FP16") and kind != "hybrid":
             continue
         out.append({"part": "sim", "kind": kind, "a": a, "b": b, "comm": comm, "pd": pd, "cp": cp, "seed": seed})
+    # second layout (the most loaded rank is not rank 0) and replicate groups split by num_trainers_per_group
+    extra = [("ddp", 2, 2, -1, "B"), ("ddp", 3, 3, -1, "B"), ("hsdp", 2, 1, -1, "B"), ("hybrid", 2, 1, -1, "B"), ("hsdp", 4, 1, 2, "A"), ("hsdp", 2, 2, 1, "A"), ("hybrid", 4, 1, 2, "A"), ("hybrid", 2, 2, 1, "B")]
+    if tier == "thorough":
+        extra += [("ddp", 4, 2, -1, "B"), ("hsdp", 4, 1, 2, "B"), ("hsdp", 2, 2, 2, "B"), ("hybrid", 4, 1, 1, "A"), ("hybrid", 2, 2, 2, "B"), ("hsdp", 4, 1, 4, "A")]
+    for (kind, a, b, nt, lay), comm, cp in itertools.product(extra, ["FP32", "BF16"], [False, True]):
+        out.append({"part": "sim", "kind": kind, "a": a, "b": b, "comm": comm, "pd": "f32", "cp": cp, "seed": seed, "ntpg": nt, "layout": lay})
     return out
 
 
 SHAPES = [[6, 5], [7], [3, 3], [2, 2, 5]]  # 17-element and larger blocks so that half-sized slots would not fit
+# layout B: blocks of 48, 32, 32 elements (192, 128, 128 bytes in float32): largest-first greedy on two ranks leaves rank 1
+# (not rank 0) with the largest total
+LAYOUTS = {"A": (SHAPES, 6, True), "B": ([[6, 8], [4, 8], [8, 4]], 8, False)}
 
 
 def program(u):
     kind, comm, pd, cp, seed = u["kind"], u["comm"], u["pd"], u["cp"], u["seed"]
+    ntpg = u.get("ntpg", -1)
+    SHAPES, max_dim, merge = LAYOUTS[u.get("layout", "A")]
 
     def fn(rank, W):
         import torch
@@ -39,7 +50,7 @@ def program(u):
         from torch.distributed.tensor import DTensor, Replicate, Shard
 
         dt = common.dtype_of(pd)
-        cfg = seq.cfg_with(shapes=SHAPES, max_dim=6, merge=True, pdtype=pd, prec_dtype="f32", betas=[0.5, 0.5], momentum=0.5, graft=["adam", 0.5, 1e-1], lr=0.25, seed=seed)
+        cfg = seq.cfg_with(shapes=SHAPES, max_dim=max_dim, merge=merge, pdtype=pd, prec_dtype="f32", betas=[0.5, 0.5], momentum=0.5, graft=["adam", 0.5, 1e-1], lr=0.25, seed=seed)
         kw = seq.ctor_kwargs(cfg)
         fulls = [torch.tensor(seq.init_param(i, tuple(s), seed), dtype=dt).reshape(s) for i, s in enumerate(SHAPES)]
         if kind == "ddp":
@@ -58,8 +69,9 @@ def program(u):
                 p = torch.nn.Parameter(f.reshape(-1)[a:b].clone())
                 params.append(p)
                 meta[p] = FSDPParameterMetadata(fqn=f"p{i}", shape=f.shape, numel=n, start_idx=a, end_idx=b, sharding_strategy=ShardingStrategy.HYBRID_SHARD)
-            dc = HSDPShampooConfig(param_to_metadata=meta, device_mesh=mesh, communication_dtype=distrun.comm_enum(comm), num_trainers_per_group=-1, communicate_params=cp)
-            gsize, grank = R, rank // S
+            dc = HSDPShampooConfig(param_to_metadata=meta, device_mesh=mesh, communication_dtype=distrun.comm_enum(comm), num_trainers_per_group=ntpg, communicate_params=cp)
+            gsize = R if ntpg == -1 else ntpg
+            grank = (rank // S) % gsize
         else:
             R, S = u["a"], u["b"]
             mesh = init_device_mesh("cpu", (R, S), mesh_dim_names=("replicate", "shard"))
@@ -70,8 +82,9 @@ def program(u):
                 c = -(-n0 // S)
                 a, b = min(n0, srank * c), min(n0, (srank + 1) * c)
                 params.append(torch.nn.Parameter(DTensor.from_local(f[a:b].clone(), mesh, [Replicate(), Shard(0)], run_check=False, shape=f.shape, stride=f.stride())))
-            dc = HybridShardShampooConfig(device_mesh=mesh, communication_dtype=distrun.comm_enum(comm), num_trainers_per_group=-1, communicate_params=cp)
-            gsize, grank = R, rank // S
+            dc = HybridShardShampooConfig(device_mesh=mesh, communication_dtype=distrun.comm_enum(comm), num_trainers_per_group=ntpg, communicate_params=cp)
+            gsize = R if ntpg == -1 else ntpg
+            grank = (rank // S) % gsize
         opt = DistributedShampoo(params, distributed_config=dc, **kw)
         d = opt._per_group_state_lists[0][DISTRIBUTOR]
         msgs = []
@@ -117,7 +130,7 @@ def program(u):
         if kind == "ddp":
             my_group = set(range((rank // u["b"]) * u["b"], (rank // u["b"] + 1) * u["b"]))
         else:
-            my_group = {r for r in range(W) if r % u["b"] == rank % u["b"]}
+            my_group = {r for r in range(W) if r % u["b"] == rank % u["b"] and (r // u["b"]) // gsize == (rank // u["b"]) // gsize}
 
         def walk(o):
             if isinstance(o, _DT):
@@ -159,7 +172,7 @@ def program(u):
                 a, b = min(n0, (rank % u["b"]) * c), min(n0, (rank % u["b"] + 1) * c)
                 p.grad = DTensor.from_local(g[a:b].clone(), mesh, [Replicate(), Shard(0)], run_check=False, shape=g.shape, stride=g.stride())
         opt.step()
-        return {"msgs": msgs, "sel": sel, "spans": spans, "seg": seg, "grank": grank, "group": (rank % u["b"]) if kind != "ddp" else rank // u["b"], "nstate": len(have), "nblocks": len(blocks)}
+        return {"msgs": msgs, "sel": sel, "spans": spans, "seg": seg, "grank": grank, "group": (rank % u["b"], (rank // u["b"]) // gsize) if kind != "ddp" else rank // u["b"], "nstate": len(have), "nblocks": len(blocks)}
 
     return fn
 
@@ -167,7 +180,7 @@ def program(u):
 def run_case(u):
     W = u["a"] * u["b"] if u["kind"] != "ddp" else u["a"]
     s = sim.Sched(W).run(program(u))
-    what = f"{u['kind']} {'W=%d group=%d' % (u['a'], u['b']) if u['kind'] == 'ddp' else 'mesh=%dx%d' % (u['a'], u['b'])} comm={u['comm']} param dtype={u['pd']} communicate_params={u['cp']}"
+    what = f"{u['kind']} {'W=%d group=%d' % (u['a'], u['b']) if u['kind'] == 'ddp' else 'mesh=%dx%d' % (u['a'], u['b'])} comm={u['comm']} param dtype={u['pd']} communicate_params={u['cp']} num_trainers_per_group={u.get('ntpg', -1)} layout={u.get('layout', 'A')}"
     msgs = []
     if s.deadlock is not None:
         msgs.append(f"{what}: DEADLOCK {s.deadlock}")
